@@ -168,7 +168,7 @@ class Report:
             "wall_s": round(time.time() - self.t0, 2),
             "violations": len(seen),
         }
-        if write_evidence:
+        if write_evidence and not os.environ.get("VERIF_NO_EVIDENCE"):
             with open(os.path.join(EVIDENCE, f"{self.prop}.json"), "w") as f:
                 json.dump(ev, f, indent=1, sort_keys=True)
         print(f"{self.prop} [{self.tier}] states={self.states} traces={self.traces} "
